@@ -47,7 +47,7 @@ def scenario(big: bool = False) -> Any:
         d["fail_kicks"] = sorted(k for k in d["fail_kicks"] if k < len(d["msgs"]))
         return d
 
-    msg = cm.message(kinds=("async", "async", "sync"), outs=("ret", "ret", "ValueError", "MyBase", "NoResult", "KeyboardInterrupt", "EmptyBatchError", "BadStrError"),
+    msg = cm.message(kinds=("async", "async", "sync"), outs=("ret", "ret", "ValueError", "MyBase", "NoResult", "KeyboardInterrupt", "EmptyBatchError", "BadStrError", "CancelledError"),
                      timeouts=(None, None, None, 0.3), acks=(None, "sync"), at=cm.times(20))
     return st.fixed_dictionaries({
         "A": st.integers(1, 3), "P": st.integers(0, 2),
